@@ -412,6 +412,15 @@ def abbreviate(s):
     s = _re.sub(r'msg::[A-Za-z]+\.', 'msg.', s)
     return s
 
+def on_book_facts(ns, key, ver=0):
+    """alternative fact sets establishing that the order `key` is on the book `ns`: a successful load, or may_load == Ok(Some)"""
+    return [[('is', ('sload', ns, key, 'load', ver), 'Ok')],
+            [('is', ('sload', ns, key, 'may_load', ver), 'Ok'), ('is', ('mayload_opt', ns, key, ver), 'Some')]]
+
+def is_not_on_book(f, ns, key, ver=0):
+    """decisive fact of 'unknown id': load failed, or may_load returned None (or failed)"""
+    return f in (('is', ('sload', ns, key, 'load', ver), 'Err'), ('is', ('mayload_opt', ns, key, ver), 'None'), ('is', ('sload', ns, key, 'may_load', ver), 'Err'))
+
 def nget(t, steps):
     """read a path of ('f', name) / ('v', Variant, name) steps from a normalised term, looking through `with` updates"""
     for st in steps:
